@@ -327,7 +327,13 @@ func (c *Channel) newResp(m0 []byte, minTime tai64.TAI64N) (*Session, error) {
 // and checks to see if it should become the new prospective session, possibly
 // replacing an existing prospective session.
 func (c *Channel) proposeNewSession(sid [32]byte, newS *Session) (ret *Session) {
-	if s := c.sessions[2].Session; s != nil && bytes.Compare(c.sessions[2].ID[:], sid[:]) < 0 {
+	if s := c.sessions[2].Session; s != nil && s.IsInit() == newS.IsInit() && !newS.InitHelloTime().After(s.InitHelloTime()) {
+		// Two handshakes started by the same side: the one with the later InitHello wins, so that a peer which has
+		// abandoned a handshake (for example by restarting) is not held to it.
+		c.log.Debug("not replacing prospective session with an older one")
+		return s
+	} else if s != nil && s.IsInit() != newS.IsInit() && bytes.Compare(c.sessions[2].ID[:], sid[:]) < 0 {
+		// Both sides initiated at once: the lower InitHello hash wins on both sides.
 		c.log.Debug("not replacing prospective session")
 		return s
 	} else if s != nil {
